@@ -329,7 +329,9 @@ def cases(tier, seed):
                             for solver in ("full",) if q else ("full", "auto"):
                                 out.append(dict(pair="pca_all_vs_none", model="ExtendedEOF", tau=tau, embedding=emb, shape=[n, p], spec=spec, center=True,
                                                 standardize=std, coslat=False, weights=w, n_modes=k, solver=solver))
-    for (n, px, py) in ([(9, 4, 3)] if q else [(9, 4, 3), (12, 6, 4), (12, 4, 4)]):
+    # views of unequal width in BOTH orders (small first / large first): per-view quantities (retained PCA modes, splits of
+    # the stacked eigenvectors) must be taken from the right view
+    for (n, px, py) in ([(9, 4, 3), (9, 3, 4)] if q else [(9, 4, 3), (9, 3, 4), (12, 6, 4), (12, 4, 6), (12, 4, 4), (12, 4, 9), (12, 9, 4)]):
         for spec in (specs_q if q else specs_full):
             for cl in _ff():
                 for k in range(1, min(px, py) + 1):
@@ -337,7 +339,7 @@ def cases(tier, seed):
                                     solver="n/a"))
 
     # ---------------------------------------------------------------- G  multi_vs_cross_cca
-    for (n, px, py) in ([(9, 4, 3), (12, 6, 4)] if q else [(9, 4, 3), (12, 6, 4), (12, 4, 4), (9, 3, 1)]):
+    for (n, px, py) in ([(9, 4, 3), (9, 3, 4), (12, 4, 6)] if q else [(9, 4, 3), (9, 3, 4), (12, 6, 4), (12, 4, 6), (12, 4, 4), (9, 3, 1), (9, 1, 3), (12, 4, 9), (12, 9, 4)]):
         for spec in (specs_q if q else specs_full):
             for cl in _ff():
                 for mpca in _ff():
